@@ -301,7 +301,30 @@ def run_layout(lay, rng, nvar):
         PH.reset()
         ev = {"ev": "Place", "variants": [label]}
         try:
-            m = limited(hu.share_placement, set(peers), set(ro), set(shares), {k: set(v) for k, v in p2s.items()})
+            if label.startswith("rstr"):
+                # through the uploader's PeerSelector, in the order a real upload learns things: every server is first
+                # known as writable; some of the servers that end up read-only report their shares BEFORE they are
+                # demoted (a failed allocate_buckets after the survey), the others are demoted first
+                from allmydata.immutable.upload import PeerSelector
+                ps = PeerSelector(1, len(shares), 1, 1)
+                allp = list(peers) + list(ro)
+                rng.shuffle(allp)
+                for pid in allp:
+                    ps.add_peer(pid)
+                late = {pid for pid in ro if rng.random() < 0.5}
+                for pid in ro:
+                    if pid not in late:
+                        ps.mark_readonly_peer(pid)
+                items = [(pid, sh) for pid, shs in p2s.items() for sh in shs]
+                rng.shuffle(items)
+                for pid, sh in items:
+                    ps.add_peer_with_share(pid, sh)
+                for pid in late:
+                    ps.mark_readonly_peer(pid)
+                ev["variants"] = [label + "/PeerSelector"]
+                m = limited(ps.get_share_placements)
+            else:
+                m = limited(hu.share_placement, set(peers), set(ro), set(shares), {k: set(v) for k, v in p2s.items()})
             ev["err"] = ""
             if not isinstance(m, dict):
                 ev["err"] = "type:%s" % type(m).__name__
